@@ -1,7 +1,7 @@
 (** C06 — property theorems only: statement, [exact] of a lemma proved in Proofs/C06_Opt.v, [Print Assumptions].
     Model: Model/C06_Opt.v.  [ev] is the problem's evaluation function (obj, ineqcv, eqcv) and is universally
     quantified everywhere; [cand] is the candidate set (decn_space), [k] the subset size (ndecn). *)
-From PV Require Import Lib.Common Model.C06_Opt Proofs.C06_Opt Gen.C06_Kernel Model.C06_Machine Proofs.C06_Kernel.
+From PV Require Import Lib.Common Model.C06_Opt Proofs.C06_Opt Gen.C06_Kernel Model.C06_Machine Proofs.C06_Kernel Proofs.C06_Scale.
 Local Open Scope Z_scope.
 
 (** *** SortingSubsetOptimizationAlgorithm *)
@@ -317,6 +317,21 @@ Theorem C06_kernel_solution_fields :
 Proof. destruct k_soln_fields_ok as (A & B). split; [now apply forallb_forall | exact B]. Qed.
 Print Assumptions C06_kernel_solution_fields.
 
+(** *** scale covariance: weights far from 1 (2^-40 ... 2^20) change nothing.  If every violation is multiplied by a > 0 and every
+    score by b > 0, both climbers visit the same states and return the same decision and pool, and the sorting optimiser selects the
+    same members.  (An absolute tolerance in a comparison would break this law; the correspondence runs the model in units of the
+    weights' scale on the strength of it.) *)
+Theorem C06_climber_scale_covariant : forall (ev ev' : list Z -> evalT) (a b : Z) (fuel : nat) (cand start : list Z),
+  0 < a -> 0 < b -> (forall x, cv (ev' x) = a * cv (ev x)) -> (forall x, score (ev' x) = b * score (ev x)) ->
+  option_map fst (climb_from ev' fuel cand start) = option_map fst (climb_from ev fuel cand start).
+Proof. intros ev ev' a b fuel cand start Ha Hb Hcv Hsc. exact (climb_from_scale ev ev' a b Ha Hb Hcv Hsc fuel cand start). Qed.
+Print Assumptions C06_climber_scale_covariant.
+
+Theorem C06_sorting_scale_covariant : forall (ev ev' : list Z -> evalT) (b : Z) (cand : list Z) (k : nat),
+  0 < b -> (forall e, single_key ev' e = b * single_key ev e) -> sort_select ev' cand k = sort_select ev cand k.
+Proof. intros ev ev' b cand k Hb Hk. exact (sort_select_scale ev ev' b Hb Hk cand k). Qed.
+Print Assumptions C06_sorting_scale_covariant.
+
 (** non-vacuity: a concrete problem (objective = sum of the members, no constraints) meets the hypotheses of the
     theorems above, and the modelled optimisers return the expected answers on it *)
 Example C06_hyps_satisfiable :
@@ -339,7 +354,10 @@ Example C06_hyps_satisfiable :
   /\ ksort_select k_sort_key k_sort_lo k_sort_hi ev (-1) [5; 1; 4; 2] 2 = [1; 2]
   /\ k_dominates [1; 2] 0 [1; 3] 0 = true /\ k_dominates [5; 5] 1 [0; 0] 2 = true
   /\ (0 < 3 /\ 0 <= 7 /\ k_tc_ndiv 3 7 = 2 /\ k_tc_nrem 3 7 = 1)
-  /\ (1 < length [5; 4]%Z)%nat /\ (0 < length [1; 2]%Z)%nat.
+  /\ (1 < length [5; 4]%Z)%nat /\ (0 < length [1; 2]%Z)%nat
+  /\ (let ev' := fun x : list Z => ([4 * sumZ x], @nil Z, @nil Z) in
+      0 < 7 /\ 0 < 4 /\ (forall x, cv (ev' x) = 7 * cv (ev x)) /\ (forall x, score (ev' x) = 4 * score (ev x)) /\
+      (forall e, single_key ev' e = 4 * single_key ev e)).
 Proof.
   cbn zeta.
   assert (N4 : NoDup [5; 1; 4; 2]) by (repeat (constructor; [cbn; intuition lia|]); constructor).
@@ -353,5 +371,6 @@ Proof.
   split; [intros i Hi; cbn in *; intuition lia|]. split; [intros j Hj; cbn in *; intuition lia|]. split; [cbn; lia|].
   split; [intros z Hz; cbn in *; intuition lia|]. split; [reflexivity|]. split; [discriminate|]. split; [reflexivity|].
   split; [reflexivity|]. split; [reflexivity|]. split; [reflexivity|]. split; [reflexivity|]. split; [reflexivity|].
-  split; [repeat split; try reflexivity; lia|]. split; cbn; lia.
+  split; [repeat split; try reflexivity; lia|]. split; [cbn; lia|]. split; [cbn; lia|].
+  repeat split; try lia; intros; unfold cv, score, single_key, e_obj, e_ineq, e_eq; cbn [fst snd sumZ fold_right nth]; try rewrite !Z.add_0_r; try lia.
 Qed.
